@@ -100,6 +100,14 @@ CHECKS["C13"] = dict(
     ref="DESIGN.md 5.4, 8 (C13)",
     technique="TLC model checking of Routing.tla + replay of TLC-exported membership sequences on real clusters + TLC trace validation (RoutingTrace.tla)")
 
+CHECKS["C10"] = dict(
+    text="Eviction.tla models a member's fragments with their share of MaxKeys and sampled LRU; TLC checks the bound, that Put never fails and that the key just written is "
+         "present for every put/touch sequence within the bound. On real clusters every MaxKeys/MaxInuse/LRUSamples/partition-count combination is driven with three key "
+         "patterns; every Put logs its result, an immediate Get and all fragment sizes; idle-window probes and the disappearance of untouched keys are logged; TLC "
+         "(EvictionTrace.tla) evaluates the bounds and the idle rule.",
+    ref="DESIGN.md 5.5, 8 (C10)",
+    technique="TLC model checking of Eviction.tla + TLC trace validation of white-box fragment statistics (EvictionTrace.tla)")
+
 NOT_YET = {}
 
 def main():
